@@ -94,6 +94,12 @@ impl InodeStore {
     pub fn inode_by_handle(&self, handle: &FileHandle) -> Option<&Inode> {
         self.by_handle.get(handle)
     }
+
+    /// Verification hook: number of live inode objects.
+    #[cfg(fuse_backend_rs_verif)]
+    pub fn verif_len(&self) -> usize {
+        self.data.len()
+    }
 }
 
 #[cfg(test)]
